@@ -135,6 +135,7 @@ type world struct {
 	viol          error
 	trace         []string
 	failedCommits int
+	cacheWindows  [][2]int64 // per writer batch: [before its storage commit, when it was released to commit its caches]
 }
 
 func (w *world) logf(f string, a ...any) {
@@ -475,6 +476,12 @@ func execCase(c Case) (res vt.Result) {
 			}
 		}
 		w.logf("release %s from %q", p.name, state[i])
+		if i == 0 && state[0] == "end" {
+			// the window between the storage commit of a batch and the commit of its cache transaction
+			w.mu.Lock()
+			w.cacheWindows = append(w.cacheWindows, [2]int64{p.preEndT, w.s.Proxy.Now()})
+			w.mu.Unlock()
+		}
 		releasedFrom[i] = state[i]
 		state[i] = ""
 		p.goCh <- struct{}{}
@@ -580,6 +587,22 @@ func execCase(c Case) (res vt.Result) {
 			if c.Regime == "R3" && len(strays) > 0 {
 				rec.Known("D5", "R3: search fails after reading through another search's finished transaction", msg)
 				continue
+			}
+			if c.Regime == "R2" && c.CacheCap > 0 && strings.Contains(msg, "point does not exist") {
+				// D5 once more, a path the strict regime cannot rule out when the shared cache is bounded: the
+				// writer's cache was pruned from the manager while it held it, an older search built a replacement
+				// from pre-commit storage, and this search - begun after the storage commit, before the writer's
+				// cache commit retires the replacement - reads it with a snapshot it does not belong to
+				inWindow := false
+				for _, cw := range w.cacheWindows {
+					if sr.preT <= cw[1] && sr.endT >= cw[0] {
+						inWindow = true
+					}
+				}
+				if inWindow {
+					rec.Known("D5", "R2 with a bounded cache: search between a batch's storage commit and its cache commit reads a replacement cache built from pre-commit storage", msg)
+					continue
+				}
 			}
 			res.Err = fmt.Errorf("regime %s: %s's search (t=%d..%d, versions %d..%d) failed: %v\nschedule:\n  %s", c.Regime, w.parts[sr.searcher].name, sr.beginT, sr.endT, lo, hi, sr.err, strings.Join(w.trace, "\n  "))
 			return res
